@@ -370,6 +370,8 @@ def _fork_map(worker: Callable[[Any], Stats], args: List[Any]) -> List[Stats]:
     """Run worker(arg) for each arg in forked children (closures allowed); at most NPROC at once."""
     if len(args) == 1:
         return [worker(args[0])]
+    import signal
+    signal.alarm(0)   # the per-case watchdog belongs to the processes that run cases; this one only waits for them (possibly for long)
     ctx = mp.get_context("fork")
     results: List[Optional[Stats]] = [None] * len(args)
     pending = list(enumerate(args))
@@ -383,11 +385,22 @@ def _fork_map(worker: Callable[[Any], Stats], args: List[Any]) -> List[Stats]:
         finally:
             conn.close()
 
+    try:
+        return _fork_loop(ctx, child, pending, running, results)
+    finally:
+        # whatever ends the loop early (a failed worker, an interrupt): no child may outlive it -- a child blocked on writing its
+        # result to a pipe nobody reads would keep the exiting parent waiting forever
+        for _, q, _ in running:
+            if q.is_alive():
+                q.terminate()
+
+
+def _fork_loop(ctx, child, pending, running, results):
     while pending or running:
         while pending and len(running) < NPROC:
             i, a = pending.pop(0)
             rd, wr = ctx.Pipe(duplex=False)
-            p = ctx.Process(target=child, args=(wr, a))
+            p = ctx.Process(target=child, args=(wr, a), daemon=True)
             p.start()
             wr.close()
             running.append((i, p, rd))
@@ -411,7 +424,7 @@ def _fork_map(worker: Callable[[Any], Stats], args: List[Any]) -> List[Stats]:
                 raise Inconclusive("worker %d died (exit %s)" % (i, p.exitcode))
             else:
                 still.append((i, p, rd))
-        running = still
+        running[:] = still
         if not progressed:
             time.sleep(0.01)
     return results  # type: ignore
